@@ -6,25 +6,10 @@
   function; `fs : FS` an arbitrary cache directory (any bytes in any file, files missing).
 -/
 import GIV.Lemmas.CacheRefine
+import GIV.Lemmas.CacheWitness
 
 namespace GIV.C05
 open GIV GIV.Cache
-
-/-! ### witnesses used by the non-vacuity examples -/
-
-/-- a toy hash: the first 31 bytes (zero padded) and the length; injective on strings shorter than 32 bytes. -/
-def toyH (d : Bytes) : Hash :=
-  ⟨(d ++ List.replicate 31 0).take 31 ++ [d.length.toUInt8], by simp [Gen.Cache.HashSize]⟩
-
-def id1 : Hash := toyH [1]
-def id2 : Hash := toyH [2]
-
-/-- the contents of the example histories: sizes 0, 1, 2. -/
-def exC (d : Bytes) : Prop := d = [] ∨ d = [65] ∨ d = [65, 66]
-
-theorem toyH_inj_exC : ∀ a b, exC a → exC b → toyH a = toyH b → a = b := by
-  intro a b ha hb h
-  rcases ha with rfl | rfl | rfl <;> rcases hb with rfl | rfl | rfl <;> first | rfl | (exact absurd h (by decide))
 
 /-! ### the index-entry codec -/
 
@@ -87,13 +72,6 @@ example : ∃ f, (FS.empty.set (fileName id1 keyA) ⟨fmtEntry id1 id2 5 7, 0⟩
 
 /-! ### the gates: whatever state the files are in -/
 
-theorem ite_error_ok {α σ : Type} {c : Prop} [Decidable c] {r : Reason} {v v' : α} {s1 s2 s' : σ}
-    (h : (if c then ((Except.error r : Except Reason α), s1) else (Except.ok v, s2)) = (Except.ok v', s')) :
-    ¬ c ∧ v = v' ∧ s2 = s' := by
-  split at h
-  · cases h
-  · rename_i hc; cases h; exact ⟨hc, rfl, rfl⟩
-
 /-- GetBytes returns not-found or bytes whose hash is the reported OutputID — for every cache directory. -/
 theorem getBytes_gate (H : Bytes → Hash) (fs : FS) (now : Int) (id : Hash) (d : Bytes) (e : Entry) (fs' : FS)
     (h : getBytes H fs now id = (.ok (d, e), fs')) : H d = e.out := by
@@ -126,15 +104,6 @@ theorem getFile_gate (fs : FS) (now : Int) (id : Hash) (f : Bytes) (e : Entry) (
         subst hf he hfs
         refine ⟨file, hfile, ?_, rfl⟩
         simpa [Gen.Cache.getFileReject] using hr
-
-/-- a damaged directory on which the gates are exercised: the index entry of `id1` claims output `toyH [65]`
-of size 1, and the data file holds those bytes. -/
-def exFS : FS := (FS.empty.set (fileName id1 keyA) ⟨fmtEntry id1 (toyH [65]) 1 7, 0⟩).set (fileName (toyH [65]) keyD) ⟨[65], 0⟩
-
-theorem exFS_stored : Stored toyH exFS id1 [65] := by
-  refine ⟨⟨7, by decide, by decide, ?_⟩, ?_, by decide⟩
-  · simp [exFS, dataOf, FS.get_set, fileName_a_ne_d]
-  · simp [exFS, dataOf, FS.get_set]
 
 example : ∃ d e fs', getBytes toyH exFS 100 id1 = (.ok (d, e), fs') := by
   obtain ⟨t, ht⟩ := exFS_stored.getBytes 100
@@ -270,5 +239,13 @@ example : runC toyH FS.empty [(1, .put id1 [65]), (2, .put id1 [65, 66]), (3, .g
     rcases hp with rfl | rfl | rfl | rfl | rfl <;> simp [OpOK, exC])]
   have h12 : ¬ id2 = id1 := by decide
   simp [runA, stepA, h12]
+
+/-- the same history with real SHA-256 as `H` (digests evaluated by the kernel): the cache behaves like the map. -/
+example : runC sha256 FS.empty [(1, .put id1 [65]), (2, .put id2 [65, 66]), (3, .getBytes id1), (4, .put id1 []), (5, .getBytes id1)] =
+    runA sha256 (fun _ => none) [.put id1 [65], .put id2 [65, 66], .getBytes id1, .put id1 [], .getBytes id1] :=
+  put_get_refines_map_empty sha256 exC sha256_inj_exC _ (by
+    intro p hp
+    simp only [List.mem_cons, List.not_mem_nil, or_false] at hp
+    rcases hp with rfl | rfl | rfl | rfl | rfl <;> simp [OpOK, exC])
 
 end GIV.C05
